@@ -680,6 +680,37 @@ def _run_kw(kw):
         return ("Err", ekind_of(e))
 
 
+def arrays_call(c):
+    """the clues of case c as the columns of a ONE-atom from_arrays call carrying c's options (speclabel, nonphysical, mtol);
+    answer in the shape impl_call gives: the atom's elea/elez/elem/mass/real/elbl"""
+    kw = {k: c[k] for k in ("A", "Z", "E", "real", "label") if c.get(k) is not None}
+    if c.get("mass") is not None:
+        kw["mass"] = float(c["mass"])
+    kw.update(speclabel=c.get("speclabel", True), nonphysical=c.get("nonphysical", False), mtol=float(c.get("mtol", "0.001")),
+              _via="from_arrays")
+    r = _run_kw(kw)
+    if r[0] != "Ok":
+        return r
+    A, Z, E, m, real, user = r[1]
+    return ("Ok", (A, Z, E, repr(m), real, user))
+
+
+def arrays_judge(T, c):
+    """from_arrays documents a mass number of -1 as 'not given'; otherwise its per-atom answer is reconcile_nucleus's answer
+    for the same clues and options: judged by the property's oracle (window of the REQUESTED mtol, clue agreement) and
+    against the direct call.  Returns (complaint or None, direct answer, from_arrays answer)."""
+    cd = dict(c, A=None) if c.get("A") == -1 else c
+    got = arrays_call(c)
+    ref = impl_call(cd)
+    bad = oracle(T, cd, got)
+    if bad:
+        bad = "per-atom fields of from_arrays output: " + bad
+    elif got != ref:
+        bad = ("from_arrays (one atom, same clues as columns, same speclabel/nonphysical/mtol) does not give the atom "
+               "reconcile_nucleus gives when called directly")
+    return bad, ref, got
+
+
 def cache_clear():
     """empty the result cache, whatever it is (a memo without cache_clear cannot be emptied: then histories simply
     continue — every answer is still compared with the pristine-process answer)"""
@@ -1106,7 +1137,8 @@ def correspond(ctx):
     corr = Corr()
     corr.rule = ("main: every element, random isotope x random subset of the 6 clue kinds x consistent / one conflicting clue x label "
                  "spellings x speclabel/nonphysical/mtol, supplied masses >= 1e-9 from every decision edge; labels: valid, near-valid "
-                 "and random strings through parse_nucleus_label; edges: masses on/near window edges (three-point comparison); "
+                 "and random strings through parse_nucleus_label; arrays: every main/edge case again as the columns of a one-atom from_arrays call "
+                 "with the case's options (mtol included), judged by the oracle and against the direct call; edges: masses on/near window edges (three-point comparison); "
                  "non-trivial = the implementation returned a nucleus (main) or fields (labels); distinct = distinct inputs")
     pat = normalised_pattern(ctx.repo)
     pattern_changed = pat != NUCLEUS_NORMALISED
@@ -1158,6 +1190,19 @@ def correspond(ctx):
         stream, c, out = meta[b]
         got, _ = coqrun.eval_terms("C06", REQ, "", [f"reconcile {in_term(c)}"])
         corr.disagreements.append({"stream": stream, "case": {"input": public(c)}, "impl": out, "model": got})
+
+    # ---- arrays stream: the same cases (all options, every mtol) as the columns of a one-atom from_arrays call
+    narr = 0
+    for c in main_cases + edge_cases:
+        badv, ref, got = arrays_judge(T, c)
+        corr.count("arrays")
+        if c.get("mtol", "0.001") != "0.001" and (c.get("mass") is not None or (c.get("parts") or {}).get("mass") is not None):
+            corr.hit("arrays_mass_clue_nondefault_mtol")
+        if badv and narr < 6:
+            narr += 1
+            corr.failures.append({"stream": "arrays", "case": {"input": public(c), "via": "from_arrays"}, "what": badv,
+                                  "observed": [ref, got], "mtol_boundary": is_mtol_boundary(T, c, got),
+                                  "wide_mismatch": is_wide_mismatch(T, c, got)})
 
     # ---- label stream
     labels = gen_labels(ctx, T, n_lab)
@@ -1252,6 +1297,11 @@ def replay(ctx, rp):
         got = histseq.fresh_run("c06", list(case["history"]))       # a fresh interpreter on the same implementation tree
         return {"history_steps": len(case["history"]), "last_step": case["history"][-1], "oracle": got, "fails": bool(got),
                 "note": None if got is not None else "the history could not be run"}
+    if "input" in case and case.get("via") == "from_arrays":
+        c = case["input"]
+        cache_clear()
+        bad, ref, got = arrays_judge(T, c)
+        return {"input": c, "via": "from_arrays", "reconcile_nucleus": ref, "from_arrays": got, "oracle": bad, "fails": bool(bad)}
     if "input" in case:
         c = case["input"]
         cache_clear()
